@@ -34,6 +34,13 @@ META = {
             "Content-Length framer).",
 }
 
+# ---- additions of the later session
+META["text"] += (" Byte level (C16/Wire.v): HttpResponse::toWireFormat as [wire]; theorems http_response_first_blank_line (whatever the body "
+                 "contains, the first blank line of a serialised response is the serialiser's own, given no CR in the status line and "
+                 "the field lines) and http_response_content_length_consistent_on_the_wire (a peer framing by Content-Length = |body| - "
+                 "the C15 client framer - is handed exactly the body, following bytes are surplus); tied by W cases: the real "
+                 "toWireFormat against the extracted [wire] on generated responses (field order canonicalised).")
+
 GATED = ["get", "head", "throw", "post", "dflt", "supp"]
 IMMEDIATE = ["na", "opt", "star", "bad", "ver"]
 
@@ -122,6 +129,42 @@ def run(ctx):
             lines = list(CORPUS) + [gen_script(rng) for _ in range(n)]
             base = rng.randint(1, 10 ** 6)
             lines += ["R %d %d %s" % (rng.choice([3, 6, 10, 16]), base + i, "seq" if i % 3 == 0 else "pipe") for i in range(12 if not thorough else 300)]
+            # W: HttpResponse::toWireFormat against the byte-level wire model (C16/Wire.v); field lines in sorted order in
+            # the case, the implementation's (unordered_map) order is canonicalised by sorting its field lines
+            wcases = []
+            for _ in range(60 if not thorough else 1500):
+                nf = rng.randint(0, 5)
+                names = rng.sample(["Content-Type", "X-A", "Server", "Cache-Control", "ETag", "X-Long-" + "h" * rng.randint(1, 30), "Vary", "Date"], nf)
+                body = bytes(rng.choice(b"ab \r\n\r\n{}:") for _ in range(rng.choice([0, 1, 2, 7, 40, 300])))
+                fl = [(nm.encode(), bytes(rng.choice(b"abc ;=/,") for _ in range(rng.randint(0, 12)))) for nm in names]
+                if rng.random() < 0.8:
+                    fl.append((b"Content-Length", str(len(body)).encode()))
+                fl.sort(key=lambda kv: kv[0] + b": " + kv[1])
+                reason = rng.choice([b"OK", b"Not Found", b"", b"Internal Server Error"])
+                wcases.append("W %d %s %s %s" % (rng.choice([200, 204, 404, 500, 101]), reason.hex() or "-",
+                                                 ",".join("%s=%s" % (k.hex(), v.hex() or "") for k, v in fl) or "-", body.hex() or "-"))
+            wi, wm, _ = vlib.run_pair(ctx, impl_exe, model_exe, wcases, "c16w", timeout=600)
+            wire_ok = 0
+            for line, ri, rm in zip(wcases, wi, wm):
+                if ri.startswith("CRASH") or ri.startswith("EXC"):
+                    v.property_failure("impl-crashes", "HttpResponse::toWireFormat crashed (%s)" % ri[:200], line, ri[:400])
+                    continue
+                mw = rm.split(" ")[0]
+                try:
+                    raw = bytes.fromhex(ri)
+                    head, sep, rest = raw.partition(b"\r\n\r\n")
+                    hl = head.split(b"\r\n")
+                    canon = b"\r\n".join([hl[0]] + sorted(hl[1:])) + sep + rest
+                except ValueError:
+                    canon = b"?"
+                body_hex = line.split(" ")[4]
+                want_body = "" if body_hex == "-" else body_hex
+                if canon.hex() != mw:
+                    v.disagreement("C16 correspondence: HttpResponse::toWireFormat differs from the wire model (field order canonicalised)", line, ri[:1500], rm[:1500])
+                elif (" body=" + want_body) not in (rm + " ") and not rm.endswith(" body=" + want_body):
+                    v.property_failure("response-malformed", "the bytes after the first blank line of the serialised response are not the body", line, rm[:600])
+                else:
+                    wire_ok += 1
             li, lm, _ = vlib.run_pair(ctx, impl_exe, model_exe, lines, "c16h", timeout=3000)
             nontrivial = overtaken = 0
             kinds = {}
@@ -162,8 +205,9 @@ def run(ctx):
                     overtaken += 1
                     v.property_failure("pipelined-responses-overtake", "pipelined requests handled by different pool workers are answered in "
                                        "handler completion order, not in request order", line, "wire order: %s" % ri)
-            cov["evaluations"] = len(lines)
-            cov["distinct_nontrivial"] = nontrivial
+            cov["evaluations"] = len(lines) + len(wcases)
+            cov["distinct_nontrivial"] = nontrivial + wire_ok
+            cov["wire_cases_agreeing"] = wire_ok
             cov["rule"] = ("random scripts on the real HttpServer (scripted engine): reads with 1-4 pipelined requests of the kinds GET / HEAD-on-GET / "
                            "throwing handler / POST echo / default handler / suppressing handler (all gated) and 405 / auto-OPTIONS / OPTIONS * / "
                            "malformed request line / unsupported version (answered without a handler), Connection: close on some, gates opened in "
